@@ -144,7 +144,7 @@ def run(ctx):
     ctx.log("T: %d random histories, %d events" % (len(ttr), sum(len(t["ev"]) for t in ttr)))
     # ---------------------------------------------------------------- V: real backtests (real Strategy, both simulators)
     from ..drivers import acct_vivo
-    vtr = acct_vivo.run_many(acct_vivo.specs(KIND, ctx.pick(6, 120), ctx.seed, first_id=tid + 1, minutes=ctx.pick((60, 90), (120, 180))))
+    vtr = acct_vivo.run_many(acct_vivo.specs(KIND, ctx.pick(6, 120), ctx.seed, first_id=tid + 1, minutes=ctx.pick((60, 90), (60, 90, 120))))
     tid += len(vtr)
     traces += vtr
     ctx.log("V: %d backtests, %d order events" % (len(vtr), sum(len(t["ev"]) for t in vtr)))
